@@ -26,7 +26,7 @@ def _nt(rec):
 
 def stages(tier, rng, only=None):
     out = [ac.stage("grid3x2", PID, lambda: ac.cases(grids.datasets(3, 2), algorun.ALL_CONFIGS, SCHEMES,
-                                                     namings=["ints", "letters"], every=COSTLY), _nt)]
+                                                     namings=["ints", "letters", "weird"], every=COSTLY), _nt)]
     n_rand = 300 if tier == "quick" else 3000
     out.append(ac.stage("random", PID, lambda: ac.cases([ac.random_dataset(rng, 7, 5) for _ in range(n_rand)],
                                                         algorun.ALL_CONFIGS, SCHEMES + ac.grid_sample(rng, 6),
